@@ -19,17 +19,19 @@ InitVal == [live |-> {}, inHandler |-> {}, called |-> FALSE, ret |-> "", liveAtC
             closedEarly |-> {},   \* accepted descriptors whose connection was closed before the server had started to track it
             pushFd |-> -1,
             opening |-> {},
-            busyAtSweep |-> {}]   \* connections that were busy when the current sweep of Shutdown began       \* descriptors returned by accept whose connection the server has not started to track yet        \* the connection a server-side sender (outside any handler) is writing to
+            busyAtSweep |-> {},
+            openFds |-> {}]       \* descriptors of accepted connections that have not been closed yet   \* connections that were busy when the current sweep of Shutdown began       \* descriptors returned by accept whose connection the server has not started to track yet        \* the connection a server-side sender (outside any handler) is writing to
 
 \* a connection that was closed (by its own poller) before the server stored it never becomes a live tracked connection:
 \* the server drops it again at once
-OpenEff(fd) == [v EXCEPT !.closedEarly = @ \ {fd}, !.opening = @ \cup {fd}, !.acceptAfterCall = (@ \/ v.called)]
+OpenEff(fd) == [v EXCEPT !.openFds = @ \cup {fd}, !.closedEarly = @ \ {fd}, !.opening = @ \cup {fd}, !.acceptAfterCall = (@ \/ v.called)]
 
 AcceptEff(fd) == IF fd \in v.closedEarly THEN [v EXCEPT !.closedEarly = @ \ {fd}, !.opening = @ \ {fd}]
                  ELSE [v EXCEPT !.live = @ \cup {fd}, !.opening = @ \ {fd}, !.acceptAfterCall = (@ \/ v.called)]
 \* Shutdown decides per sweep: a connection that was busy when the sweep began and still is when Shutdown closes it was not idle at
 \* any moment in between (one that became busy after Shutdown had looked at it is the unavoidable check-then-close race)
 SweepEff == [v EXCEPT !.busyAtSweep = v.inHandler]
+FdCloseEff(fd) == [v EXCEPT !.openFds = @ \ {fd}]
 \* a connection that the server starts to track after Shutdown has returned nil was alive (accepted, not closed) when it returned
 AcceptViol(fd) == IF v.ret = "nil" /\ fd \notin v.closedEarly THEN {"C13.shutdown_returned_nil_with_live_connections"} ELSE {}
 ClosedViol(fd, by) ==
@@ -39,6 +41,9 @@ ClosedEff(fd) == [v EXCEPT !.live = @ \ {fd}, !.inHandler = @ \ {fd}, !.busyAtSw
 CallEff == [v EXCEPT !.called = TRUE, !.liveAtCall = v.live \cup v.opening, !.busyAtCall = (v.inHandler # {})]
 RetViol(err) ==
     (IF err = "nil" /\ v.live # {} THEN {"C13.shutdown_returned_nil_with_live_connections"} ELSE {})
+    \* a connection that accept has returned and whose close callbacks have not run is alive, tracked or not (the untrack callback is
+    \* the first close callback by design - before the descriptor number can be reused - so "tracked" ends when the callbacks start)
+    \cup (IF err = "nil" /\ (v.opening \ v.closedEarly) # {} THEN {"C13.shutdown_returned_nil_with_live_connections"} ELSE {})
     \* nothing was alive when Shutdown was called and nothing was accepted afterwards: the first sweep finds nothing to wait for
     \cup (IF err = "deadline" /\ v.liveAtCall = {} /\ ~v.acceptAfterCall THEN {"C13.shutdown_timed_out_with_nothing_to_wait_for"} ELSE {})
     \cup (IF err \notin {"nil", "deadline"} THEN {"C13.shutdown_returned_an_unexpected_error"} ELSE {})
